@@ -38,7 +38,8 @@ CONSTANTS
 INVARIANTS
   Emit
 """ % (steps, evalw, "TRUE" if rbevery else "FALSE", avoid))
-    res = v.tlc(run.sc, "PolicyGen", cfg, mode="simulate", simulate="num=%d" % num, depth=steps + 2,
+    # -simulate num=N is per worker
+    res = v.tlc(run.sc, "PolicyGen", cfg, mode="simulate", simulate="num=%d" % -(-num // workers), depth=steps + 2,
                 seed=seed, workers=workers, deadlock=False, timeout=1500)
     v.require_design_ok(res, "PolicyGen " + tag)
     if res.violated or not res.printed:
@@ -58,12 +59,14 @@ def seeds(run):
 ENOUGH = 3      # violations after which the rest of the run adds nothing (exit 1 either way)
 
 
-def judge(run, harness, behs, group, cfg=STRICT, known=KF, conf=None, batch=400):
+def judge(run, harness, behs, group, cfg=STRICT, known=KF, conf=None, batch=None):
     """execute the schedules on the real code and let TLC judge the traces.  Judged in growing
     chunks and stopped once ENOUGH violations are in hand: every rejected trace costs extra TLC
     runs, so a change that breaks most evaluations must not be judged trace by trace to the end."""
     if not behs or len(run.violations) >= ENOUGH:
         return
+    if batch is None:       # few TLC runs when nothing is rejected, cheap re-runs when something is
+        batch = max(400, len(behs) // 6)
     t0 = time.time()
     traces = run.execute(harness[0], harness[1], harness[2], behs, tag="c10-" + group)
     t1 = time.time()
@@ -95,11 +98,11 @@ def main(run: Run):
     # 1. exhaustive tiny programs: design level + every program executed on the real code
     for pool in ["alias", "a1", "seq", "c2"] + (["c2x"] if thorough else []):
         behs = tiny(run, pool, w)
-        judge(run, WB, behs, "tiny-" + pool, conf=CONF if thorough else None)
+        judge(run, WB, behs, "tiny-" + pool, conf=CONF if thorough and pool != "c2x" else None)
 
     # 2. programs built by behaviours (config actions interleaved with Evaluate), white box.
     #    The input shapes of the recorded findings are not generated here: strict invariants.
-    behs = simulate(run, "wb", 3000 if thorough else 300, 40 if thorough else 30, 6, False,
+    behs = simulate(run, "wb", 3000 if thorough else 300, 40 if thorough else 30, 8, False,
                     "KFTriggersWb", s + 1, workers=w if thorough else 1)
     judge(run, WB, behs, "wb")
 
@@ -114,7 +117,7 @@ def main(run: Run):
     #    judged directly with the weakened invariants: whatever they reject is a violation.
     sd = seeds(run)
     few = 30 if thorough else 0
-    rnd_wb = simulate(run, "wbkf", 600 if thorough else 120, 30, 6, False, "NoAvoid", s + 3,
+    rnd_wb = simulate(run, "wbkf", 600 if thorough else 120, 30, 8, False, "NoAvoid", s + 3,
                       workers=w if thorough else 1)
     rnd_api = simulate(run, "apikf", 300 if thorough else 60, 16, 0, True, "ApiAlways", s + 4,
                        workers=w if thorough else 1)
